@@ -395,9 +395,9 @@ func genZC(t *rapid.T) ZCScript {
 		}
 		sc.Nodes = append(sc.Nodes, c)
 	}
-	for i, m := 0, rapid.SampledFrom([]int{0, 1, 1, 2}).Draw(t, "proxies"); i < m; i++ {
+	for i, m := 0, rapid.SampledFrom([]int{0, 1, 1, 1, 2}).Draw(t, "proxies"); i < m; i++ {
 		pc := ProxyCfg{Brand: rapid.StringMatching(`[A-Za-z0-9 _-]{0,12}`).Draw(t, "pbrand"),
-			IPs: rapid.SampledFrom([][]string{{"fe80::77"}, {"fe80::77", "fe80::78"}, {"192.0.2.77"}, {"192.0.2.77", "fe80::77"}, {"2001:db8::77"},
+			IPs: rapid.SampledFrom([][]string{{"fe80::77"}, {"fe80::77", "fe80::78"}, {"fe80::78"}, {"192.0.2.77"}, {"192.0.2.77", "fe80::77"}, {"2001:db8::77"},
 				{"2001:db8::77", "192.0.2.77", "192.0.2.78"}, {"fe80::78", "2001:db8::77"}}).Draw(t, "ips")}
 		if rapid.IntRange(0, 3).Draw(t, "pinvalid") == 0 {
 			pc.Invalid = rapid.SampledFrom([]string{"missing:txtvers", "missing:id", "missing:path", "missing:ski", "missing:register", "txtvers", "register"}).Draw(t, "invalidKind")
